@@ -464,7 +464,9 @@ func tailRules(p *Prog, r *Report, rts *ssa.Function, isFR instrPred) {
 			_, isDefer := in.(*ssa.Defer)
 			return !isDefer && isCallToNamed(callCommon(in), ccPath, "processController", "abort")
 		}
-		isResult := func(in ssa.Instruction) bool { return isCallToNamed(callCommon(in), ccPath, "processController", "result") }
+		isResult := func(in ssa.Instruction) bool {
+			return isCallToNamed(callCommon(in), ccPath, "processController", "result")
+		}
 		ok := precededBy(fr, isWait) && precededBy(fr, isAbort) && precededBy(fr, isResult)
 		// abort before result
 		for _, res := range findInstrs(rts, isResult) {
